@@ -5,6 +5,7 @@ package main
 
 import (
 	"fmt"
+	"reflect"
 	"go/constant"
 	"go/types"
 	"strings"
@@ -323,6 +324,11 @@ func init() {
 			return st.sym(name, rt)
 		})}
 	}
+	extModels["time.After"] = &model{doc: "a timer channel: its receive arm may fire at any time (timing is not modelled)", fn: simple(func(r *FnRun, st *State, instr ssa.Instruction, args []*V) *V {
+		v := vInt(st.allocRef(), resType(instr))
+		v.Prov = "timer"
+		return v
+	})}
 	extModels["(time.Time).After"] = uf("time.After", 2, "uninterpreted order on instants")
 	extModels["(time.Time).Before"] = uf("time.Before", 2, "uninterpreted order on instants")
 	extModels["(time.Time).Add"] = uf("time.Add", 2, "uninterpreted")
@@ -393,7 +399,7 @@ func sysCall(name string, post func(r *FnRun, st *State, args []*V, res []*V)) *
 			}
 			j := 5
 			for _, v := range res {
-				for _, l := range leaves(v) {
+				for _, l := range intLeaves(v) {
 					if j > 7 {
 						break
 					}
@@ -490,15 +496,91 @@ func init() {
 		}}
 	extModels["(*bytes.Buffer).Bytes"] = &model{doc: "the buffer's content as an abstract slice identified with the buffer state", fn: simple(func(r *FnRun, st *State, instr ssa.Instruction, args []*V) *V {
 		id := identityLeaves(args[0])[0]
-		content := sSel(st.comp("buf#content", 1, "Int"), id)
+		arr := sSel(st.comp("buf#arr", 1, "Int"), id)
+		content := sSel(st.comp("bytes#content", 1, "Int"), arr)
 		r.eng.declare("(declare-fun |uf:content.len| (Int) Int)")
 		ln := "(|uf:content.len| " + content + ")"
 		st.assume("(>= " + ln + " 0)")
-		// the returned slice's array identity is the content value itself: equal contents, equal bytes
-		return &V{K: KSlice, T: resType(instr), Arr: content, Off: "0", Len: ln, Cap: ln}
+		// the slice aliases the buffer's array: later writes to / resets of the buffer are visible through it
+		return &V{K: KSlice, T: resType(instr), Arr: arr, Off: "0", Len: ln, Cap: ln}
 	})}
-	extModels["(*bytes.Buffer).Reset"] = &model{doc: "content := empty", fams: []string{"buf"}, fn: simple(func(r *FnRun, st *State, instr ssa.Instruction, args []*V) *V {
-		st.writeLeaf("buf#content", []string{identityLeaves(args[0])[0]}, "Int", "0")
+	extModels["(*bytes.Buffer).Reset"] = &model{doc: "content of the buffer's array := empty (slices obtained earlier from Bytes() alias it)", fams: []string{"bytes"}, fn: simple(func(r *FnRun, st *State, instr ssa.Instruction, args []*V) *V {
+		arr := sSel(st.comp("buf#arr", 1, "Int"), identityLeaves(args[0])[0])
+		st.writeLeaf("bytes#content", []string{arr}, "Int", "0")
 		return unit()
 	})}
+	extModels["(*sync.Pool).Put"] = &model{doc: "the object is handed to whoever calls Get next: the content of a pooled bytes.Buffer is no longer under this call's control (havocked)", fams: []string{"bytes"}, fn: simple(func(r *FnRun, st *State, instr ssa.Instruction, args []*V) *V {
+		if args[1].K == KIface {
+			arr := sSel(st.comp("buf#arr", 1, "Int"), args[1].Val)
+			st.writeLeaf("bytes#content", []string{arr}, "Int", r.fresh("pooled", "Int"))
+		}
+		return unit()
+	})}
+	extModels["(*sync.Pool).Get"] = &model{doc: "an arbitrary previously pooled (or new) object", fn: simple(func(r *FnRun, st *State, instr ssa.Instruction, args []*V) *V {
+		return st.sym("pool.get", resType(instr))
+	})}
+}
+
+// ---- encoding/json (uninterpreted: the line is a function of the encoded value's fields) ----
+func init() {
+	extModels["encoding/json.NewEncoder"] = &model{doc: "fresh encoder bound to the writer", fams: []string{"enc"}, fn: simple(func(r *FnRun, st *State, instr ssa.Instruction, args []*V) *V {
+		ref := st.allocRef()
+		st.writeLeaf("enc#w", []string{ref}, "Int", args[0].Val)
+		st.writeLeaf("enc#indent", []string{ref}, "Int", "0")
+		return vInt(ref, resType(instr))
+	})}
+	extModels["(*encoding/json.Encoder).SetIndent"] = &model{doc: "records the indent", fams: []string{"enc"}, fn: simple(func(r *FnRun, st *State, instr ssa.Instruction, args []*V) *V {
+		st.writeLeaf("enc#indent", []string{args[0].S}, "Int", args[2].S)
+		return unit()
+	})}
+	extModels["(*encoding/json.Encoder).Encode"] = &model{doc: "on success appends jsonline(indent, value fields) to the writer's buffer, on error appends nothing; jsonline is uninterpreted", fams: []string{"bytes"},
+		fn: func(r *FnRun, st *State, fr *frame, instr ssa.Instruction, args []*V, k func(*State, *V)) {
+			enc, v := args[0].S, args[1]
+			c := callCommon(instr)
+			// the encoded value's fields (when its static type is known)
+			var ls []string
+			name := "json.any"
+			if mi, ok := c.Args[1].(*ssa.MakeInterface); ok {
+				inner := r.unbox(st, v, mi.X.Type())
+				ls = intLeaves(inner)
+				if stt, ok := mi.X.Type().Underlying().(*types.Struct); ok {
+					// the JSON member names are part of the function's identity
+					var names []string
+					for i := 0; i < stt.NumFields(); i++ {
+						n := stt.Field(i).Name()
+						if tag := reflectTag(stt.Tag(i), "json"); tag != "" {
+							if p := strings.Split(tag, ","); p[0] != "" {
+								n = p[0]
+							}
+							if strings.Contains(tag, ",omitempty") {
+								n += "?"
+							}
+						}
+						names = append(names, n)
+					}
+					name = "json{" + strings.Join(names, ",") + "}"
+				}
+			} else {
+				ls = []string{v.Tag, v.Val}
+			}
+			fn := mangle("uf:" + name)
+			r.eng.declare("(declare-fun " + fn + " (" + strings.Repeat("Int ", len(ls)+1) + ") Int)")
+			indent := sSel(st.comp("enc#indent", 1, "Int"), enc)
+			line := sApp(fn, append([]string{indent}, ls...)...)
+			w := sSel(st.comp("enc#w", 1, "Int"), enc)
+			warr := sSel(st.comp("buf#arr", 1, "Int"), w)
+			old := sSel(st.comp("bytes#content", 1, "Int"), warr)
+			r.eng.declare("(declare-fun |uf:append| (Int Int) Int)")
+			errT := types.Universe.Lookup("error").Type()
+			e := st.sym("json.err", errT)
+			st.writeLeaf("bytes#content", []string{warr}, "Int", sIte(sEq(e.Tag, "0"), "(|uf:append| "+old+" "+line+")", old))
+			st.emit("sys:jsonencode", enc, w, sIte(sEq(e.Tag, "0"), "1", "0"))
+			k(st, e)
+		}}
+}
+
+func boolsToInts(ls []string) []string { return ls }
+
+func reflectTag(tag, key string) string {
+	return reflect.StructTag(tag).Get(key)
 }
